@@ -555,7 +555,7 @@ fn minimise(case: &Case) -> Case {
 }
 
 pub fn run(ctx: &mut Ctx) {
-    ctx.rule = "requests for getInfo / makeCredential / getAssertion (valid and failing: unsupported algorithms, rk on a non-discoverable store, pin-auth, up=false, denied or failing user validation, allow/exclude lists that are absent/empty/miss/hit/foreign, PRF requests, an explicit hmac-secret input of false / true with or without a PRF input, per-credential PRF inputs keyed by a held / an unknown id with and without an allow list, user handles of 1-255 bytes, user / RP labels of about a hundred bytes, allow lists naming every held credential in reverse order with a repeat); what the store is told in every call is compared as well on authenticators configured with the default / an empty / other transport lists, with generated store contents (0-4 credentials over two RPs, counters incl. max, with/without user handle and PRF secrets), store capability, hmac-secret configuration and user-validation behaviour, RP IDs that are arbitrary text of 0-70 characters (ASCII and 2/3/4-byte characters), and store calls that fail with any status byte (both sides armed alike); two authenticators are built from the same description, one is driven through <Authenticator as Ctap2Api>, the other through the direct methods, each case in an isolated worker with an 8 MiB stack and CPU watchdog. Non-trivial = makeCredential / getAssertion pairs; distinct by case.".into();
+    ctx.rule = "requests for getInfo / makeCredential / getAssertion (valid and failing: unsupported algorithms, rk on a non-discoverable store, pin-auth, up=false, denied or failing user validation, allow/exclude lists that are absent/empty/miss/hit/foreign, PRF requests, an explicit hmac-secret input of false / true with or without a PRF input, per-credential PRF inputs keyed by a held / an unknown id with and without an allow list, user handles of 1-255 bytes, user / RP labels of about a hundred bytes, allow lists naming every held credential in reverse order with a repeat); what the store is told in every call is compared as well on authenticators configured with the default / an empty / other transport lists, with generated store contents (0-4 credentials over two RPs, counters incl. max, with/without user handle and PRF secrets), store capability, hmac-secret configuration and user-validation behaviour, RP IDs that are arbitrary text of 0-70 characters (ASCII and 2/3/4-byte characters), and store calls that fail with any status byte (both sides armed alike); two authenticators are built from the same description, one is driven through <Authenticator as Ctap2Api>, the other through the direct methods, each case in an isolated worker with an 8 MiB stack and CPU watchdog. Since rounds 7/8: authenticators that answered 1-4 earlier uv requests on both sides, a cancelled request on each side first, held user handles of up to 1.3 kB. Non-trivial = makeCredential / getAssertion pairs; distinct by case.".into();
     ctx.assumptions = vec![
         "results are compared by status byte (errors), by authenticator data / selected credential / user entity / extension outputs and by signature validity under the stored key (successes; new keys and ids are random so registrations are compared by shape), and by the abstract store state, the user-validation call log and the sequence of store calls".into(),
         "termination: a worker that dies or exceeds 10 s of CPU is attributed to the case it had started".into(),
